@@ -373,6 +373,10 @@ func (p *Parser) parseBuffer(buf []byte, last bool) (err error) {
 					}
 				case 't':
 					p.addToken(off)
+					if _, ok := p.stack[len(p.stack)-1].(gen.Key); ok {
+						// The token was a key, there is no value for it.
+						return p.newError(off, "expected a colon, not '}'")
+					}
 				}
 			}
 			p.starts = p.starts[0:depth]
